@@ -331,11 +331,11 @@ def _error_guarded(fn, call):
     for prev in reversed(sts[:i]):
         if prev["k"] == "IfStmt" and prev["c"][2] is None:
             c = strip(prev["c"][0])
-            tests = any(y.get("callee") == "comsgErrorCount" for y in calls(prev["c"][0]))
+            tested = [y.get("callee") for y in calls(prev["c"][0]) if (y.get("callee") or "").startswith("comsgError")]
             nz = c is not None and (c["k"] == "CallExpr" or (c["k"] == "BinaryOperator" and c["op"] in ("!=", ">") and const_value(c["c"][1]) == 0))
             leaves = any(y.get("callee") == "exitFailure" for y in calls(prev["c"][1]))
-            if tests and nz and leaves:
-                return True
+            if tested and nz and leaves:
+                return tested[0]           # the counter accessor the guard reads
         if prev["k"] not in ("NullStmt", "DeclStmt"):
             break
     return False
@@ -862,6 +862,10 @@ def run(tier, only=None):
     from . import variadic
     _gen = set(["genc.c", "ccode.c"] + [u for u in common.compiler_units() if u.startswith(("java/", "of_")) or u in ("usedef.c", "flog.c", "dflow.c", "optfoam.c", "inlutil.c", "loops.c")])
     variadic.report(rep, "K11", [u for u in common.compiler_units() if u not in _gen], floor=1700, what="in the front end, FOAM generator and support units")
+    from . import fmtstring
+    fmtstring.report(rep, "K15", floor=2000, frozen={
+        ("list.c", "ptrListFormat"): "the format is \"%p\" followed by the registered name of the list's element formatter "
+                                     "(\"Syme\", \"AbSyn\", ...: literals at all 8 call sites of listFormat(T))"})
     # ---- K8 ---------------------------------------------------------------
     n8 = 0
     for u in sorted(dig):
@@ -1020,6 +1024,28 @@ def run(tier, only=None):
     # success exits
     frozen_exits = json.load(open(os.path.join(FROZEN, "c07_success_exits.json")))
     seen = set()
+    # counters of comsg.c that are never put back: accessor `return G;` where G is only ever incremented.  comsgErrorCount()
+    # reads nErrors, which comsgInit resets for every file of the invocation (and every step of the loop).
+    f_comsg_all = common.extract("comsg.c", all_trees=True)
+    writes = {}
+    for nm_, fn_ in f_comsg_all.funcs.items():
+        if "body" not in fn_:
+            continue
+        for x in walk(fn_["body"]):
+            if x["k"] in ("BinaryOperator", "CompoundAssignOperator") and x["op"] in ("=", "+=", "-=") or \
+                    x["k"] == "UnaryOperator" and x["op"] in ("++", "post++", "--", "post--"):
+                l = strip(x["c"][0])
+                if l is not None and l["k"] == "DeclRefExpr":
+                    writes.setdefault(l["n"], []).append(x["op"])
+    wide = set()
+    for nm_, fn_ in f_comsg_all.funcs.items():
+        if "body" not in fn_ or not nm_.startswith("comsgError"):
+            continue
+        rets = [r for r in walk(fn_["body"]) if r["k"] == "ReturnStmt" and r["c"] and r["c"][0] is not None]
+        if len(rets) == 1:
+            g = strip(rets[0]["c"][0])
+            if g is not None and g["k"] == "DeclRefExpr" and writes.get(g["n"]) and all(o in ("++", "post++") for o in writes[g["n"]]):
+                wide.add(nm_)
     for d in dig.values():
         for unit, func, what, line, guarded in d["exits"]:
             key = "%s:%s" % (unit, func)
@@ -1029,6 +1055,12 @@ def run(tier, only=None):
                 rep.violation("K3", "success-exit:" + key, "%s:%d (%s)" % (unit, line, func),
                               "%s in %s can be reached while compiling a source file and is not preceded by "
                               "`if (comsgErrorCount() != 0) exitFailure();`: an error already printed is followed by exit status 0" % (what, func))
+            elif ent is not None and ent["kind"] == "guarded" and guarded not in wide:
+                rep.violation("K3", "success-exit-whole-invocation:" + key, "%s:%d (%s)" % (unit, line, func),
+                              "%s in %s is guarded by %s(), a count that is put back to zero for every file of the invocation: "
+                              "`aldor bad.as quit.as` prints the errors of the first file and leaves with status 0 at the "
+                              "second file's #quit.  The guard must read a count that is never reset (%s)"
+                              % (what, func, guarded, ", ".join(sorted(wide)) or "none exists in comsg.c"))
             elif ent is not None:
                 rep.ok("K3", "success-exit:" + key, nontrivial=(ent["kind"] == "guarded"))
             else:
